@@ -4,7 +4,7 @@
     transcribed selection logic of the API accessors (Api/ApiLen.v). *)
 From Coq Require Import NArith List Bool Lia.
 From SFV Require Import Base.Bytes Gen.NanBoxGen NanBox.NanBox Msgpack.Wire Read.Lazy Read.ReadRun Read.ReadSpec
-  Read.ReadFuel Api.ApiLen Properties.C01 Properties.C06 Base.RsPrelude Gen.ApiLenGen Api.ApiLenGenEq.
+  Read.ReadFuel Api.ApiLen Properties.C01 Properties.C06 Base.RsPrelude Gen.ApiLenGen Api.ApiLenGenEq Read.GenRun.
 Import ListNotations.
 Open Scope N_scope.
 
@@ -83,6 +83,13 @@ Theorem C11_reader : forall (W : N) (trap : bool) (w : wire),
   forall ops : list rop, refs_ok ops = true ->
   outs (run W trap (fuel_for w ops) (enc w) ops) = spec_run w ops.
 Proof. exact C01. Qed.
+
+(** ... and of the TRANSLATED reader (Read/GenRun.v, every node operation the regenerated Rust function; C01_code_reads):
+    lengths above the inline limit included -- the length query's answer on the translated code is the true length. *)
+Theorem C11_code_reader : forall (W : N) (trap : bool) (w : wire),
+  wf w = true -> no_nan w = true -> lenN (enc w) + 9 < 2 ^ W -> 32 <= W ->
+  forall ops : list rop, SFV.Read.GenRun.gouts (SFV.Read.GenRun.g_run W trap (enc w) ops) = spec_run w ops.
+Proof. exact SFV.Properties.C01.C01_code_reads. Qed.
 
 (** Non-vacuity: a 70000-byte string at W = 32: inline field 16383, accessor length 70000. *)
 Example C11_example :
